@@ -18,6 +18,7 @@ package decision
 
 import (
 	"net/http"
+	"slices"
 
 	"github.com/rs/zerolog"
 
@@ -51,9 +52,9 @@ func (r *requestContext) Finalize(_ rule.Backend) error {
 
 	zerolog.Ctx(r.AppContext()).Debug().Msg("Creating response")
 
-	uh := r.UpstreamHeaders()
-	for k := range uh {
-		r.rw.Header().Set(k, uh.Get(k))
+	// all values of a header are handed over, as the envoy ext_authz service does it
+	for k, values := range r.UpstreamHeaders() {
+		r.rw.Header()[k] = slices.Clone(values)
 	}
 
 	for k, v := range r.UpstreamCookies() {
